@@ -417,11 +417,21 @@ fn budgets_mode(ctx: &mut Ctx, s: &Shape, exhaustive_targets: bool) {
             combos.push((mt, stt));
         }
     }
+    // third form: list encoding in which one pointer occurs twice (the list carries what it carries:
+    // the budget is the sum over the redeemers of the transaction)
+    let mut forms: Vec<(bool, bool)> = encs.iter().map(|m| (*m, false)).collect();
+    forms.push((false, true));
     for (mt, stt) in combos {
-        for &as_map in &encs {
+        for &(as_map, dup) in &forms {
+            let mut reds = reds0.clone();
+            if dup {
+                let k = ctx.rng.usize_below(reds.len());
+                let d = reds[k].clone();
+                reds.insert(k + 1, d);
+            }
+            let n = reds.len();
             let mp = split(&mut ctx.rng, mt, n);
             let sp = split(&mut ctx.rng, stt, n);
-            let mut reds = reds0.clone();
             for (i, r) in reds.iter_mut().enumerate() {
                 r.mem = mp[i];
                 r.steps = sp[i];
@@ -431,7 +441,10 @@ fn budgets_mode(ctx: &mut Ctx, s: &Shape, exhaustive_targets: bool) {
                 ctx.count("no_integrity_hash");
                 continue;
             };
-            let r = Run { shape: s, tx: t, reds, as_map, mode: if as_map == as_map0 { "budgets-rewritten" } else { "budgets-rewritten+encoding-converted" } };
+            let r = Run { shape: s, tx: t, reds, as_map, mode: if dup { "budgets-rewritten+duplicate-pointer" } else if as_map == as_map0 { "budgets-rewritten" } else { "budgets-rewritten+encoding-converted" } };
+            if dup {
+                ctx.count("duplicate_pointer_cases");
+            }
             if !usable(ctx, &r) {
                 continue;
             }
